@@ -550,3 +550,12 @@ package lang
 //@   at call runModeTry#2 assert (fork.RunMode == runmode.BlockTryErr || fork.RunMode == runmode.FunctionTryErr || fork.RunMode == runmode.ModuleTryErr) && arg1 == _TRY_STDERR
 //@   at call runModeTryPipe#2 assert (fork.RunMode == runmode.BlockTryPipeErr || fork.RunMode == runmode.FunctionTryPipeErr || fork.RunMode == runmode.ModuleTryPipeErr) && arg1 == _TRY_STDERR
 //@   ensures imp(old(fork.fidRegistered), called("deregisterProcess"))
+
+// ---- C16: object lookup by key ---------------------------------------------------------------------------
+// The spelling search of itoIndexMap (exact, Title, lower, UPPER): it starts at the exact spelling for
+// every key, moves on only past a spelling that is absent from the map - a key present with a null value
+// is found - and so the first spelling present in the map is the one used.
+//@ spec $spelling(j int, s string) string = ite(j == 0, s, ite(j == 1, $title(s), ite(j == 2, $lower(s), $upper(s))))
+//@ func itoIndexMap [C16]
+//@   check none
+//@   loop 2 invariant 0 <= iString && forall(j, 0, iString, j <= 3 && !has(v, unbox(any($spelling(j, params[i])), K)))
